@@ -3,10 +3,10 @@
    cfg ranges over ALL grammar tables (keyword aliases, operator levels in any order, residue tables);
    gen_cfg is the table regenerated from mdtraj/core/selection.py on every run, ref_cfg the hand-kept copy of
    the table as found. *)
-From Coq Require Import List String ZArith Bool Sorted Permutation.
+From Coq Require Import List String Ascii ZArith Bool Sorted Permutation.
 Require Import MD.Select.Syntax MD.Select.Regex MD.Select.Model MD.Select.Types MD.Select.Run MD.Select.Layout
                MD.Select.ParsePrint MD.Select.Proofs MD.Select.Malformed MD.Select.Reference MD.Select.Precedence
-               MD.Select.RegexProofs MD.Select.LexProofs MD.Select.Sugar MD.Select.Typing MD.Select.Order MD.Select.OrderProofs
+               MD.Select.RegexProofs MD.Select.LexProofs MD.Select.Sugar MD.Select.Typing MD.Select.Order MD.Select.OrderProofs MD.Select.QuoteProofs
                MD.Gen.SelectTables MD.Select.GenChecks.
 Import ListNotations.
 
@@ -358,3 +358,30 @@ Theorem correspondence_typing_shortcut_sound : forall cfg atoms ts,
   select_pair_t cfg atoms ts = (select_pair cfg atoms ts, tokens_well_typed cfg ts).
 Proof. exact select_pair_t_correct. Qed.
 Print Assumptions correspondence_typing_shortcut_sound.
+
+(* ---- quoted literals with escapes (Model.scan_quoted, used by the lexer where the body has a backslash escape of a
+   quote or the other kind of quote): conservative over the simple form, decodes an escaped quote / backslash to the
+   character itself without closing the literal, and the literal is closed by a delimiter of the input *)
+Theorem scan_quoted_plain : forall delim body rest,
+  forallb (fun x => negb (is_backslash x) && negb (Ascii.eqb x delim)) body = true ->
+  scan_quoted delim (body ++ delim :: rest) = Some (body, rest).
+Proof. exact QuoteProofs.scan_quoted_plain. Qed.
+Print Assumptions scan_quoted_plain.
+
+Theorem scan_quoted_escape : forall delim d cs l rest,
+  Ascii.eqb (Ascii.ascii_of_nat 92) delim = false ->
+  (is_backslash d || is_quote d) = true ->
+  scan_quoted delim cs = Some (l, rest) ->
+  scan_quoted delim (Ascii.ascii_of_nat 92 :: d :: cs) = Some (d :: l, rest).
+Proof. exact QuoteProofs.scan_quoted_escape. Qed.
+Print Assumptions scan_quoted_escape.
+
+Theorem scan_quoted_consumes : forall delim cs l rest,
+  scan_quoted delim cs = Some (l, rest) -> exists pre, cs = pre ++ delim :: rest.
+Proof. exact QuoteProofs.scan_quoted_consumes. Qed.
+Print Assumptions scan_quoted_consumes.
+
+Example scan_quoted_nonvacuous :
+  scan_quoted "'"%char (list_ascii_of_string "O5\'' CA") = Some (list_ascii_of_string "O5'", list_ascii_of_string " CA").
+Proof. exact QuoteProofs.scan_quoted_prime. Qed.
+Print Assumptions scan_quoted_nonvacuous.
